@@ -15,7 +15,7 @@ value; level-0 unquote-splice -> the elements of (or value []); deeper levels
 literal with the level adjusted; sequence nodes rebuilt with the same class
 and attributes), compared with hy.eval of (quasiquote T) node by node modulo
 promotion of inserted Python values (reference as-model); a splice of a true
-non-iterable must raise TypeError.
+non-iterable must raise an exception.
 """
 from mc.util import Acc, time_limit, CaseTimeout
 from mc.ref import pr_models as P
@@ -29,7 +29,7 @@ LEVEL_TEXT = ("Every template up to the size bound, with unquote / unquote-splic
               "with a reference quasiquote written from the documentation. Exhaustive within the bound.")
 RULE = ("a case is one (template, binding) pair; templates are distinct trees, bindings distinct tuples; non-trivial = the "
         "template has at least one level-0 hole or a nested quasiquote/unquote wrapper; outcome classes = ok:value / "
-        "ok:TypeError / first differing field")
+        "ok:raises:<class> / first differing field")
 ASSUMPTIONS = [
     "templates over the listed atoms, kinds, wrappers and sizes only; holes unquote variables only",
     "unquote / unquote-splice / quasiquote forms always have exactly one argument (other arities are outside the space)",
@@ -160,13 +160,14 @@ def check_case(acc, tspec, tmodel, names, code=None):
         return
     acc.traces += 1
     if expected[0] == "raises":
-        if got[0] == "raises" and type(got[1]).__name__ == expected[1]:
-            acc.outcome("ok:" + expected[1])
+        # the documentation fixes that there is nothing to splice, not the exception class: any Exception is accepted
+        if got[0] == "raises" and isinstance(got[1], Exception):
+            acc.outcome("ok:raises:" + type(got[1]).__name__)
             return
         if got[0] == "raises":
-            return bad("qq-wrong-exception", f"reference: splicing a true non-iterable raises {expected[1]}; "
-                       f"implementation raised {type(got[1]).__name__}: {got[1]}"[:400], exc=type(got[1]).__name__)
-        return bad("qq-expected-error-not-raised", f"reference: splicing a true non-iterable raises {expected[1]}; "
+            return bad("qq-wrong-exception", f"reference: splicing a true non-iterable is an error; "
+                       f"implementation raised the non-Exception {type(got[1]).__name__}: {got[1]}"[:400], exc=type(got[1]).__name__)
+        return bad("qq-expected-error-not-raised", f"reference: splicing a true non-iterable raises (Python: {expected[1]}); "
                    f"implementation returned {got[1]!r}"[:400])
     if got[0] == "raises":
         return bad("qq-eval-raises", f"reference gives a value; implementation raised {type(got[1]).__name__}: {got[1]}"[:400],
